@@ -632,7 +632,9 @@ func callSSA(i *interpreter, caller *frame, callpos token.Pos, fn *ssa.Function,
 			if i.mode&EnableTracing != 0 {
 				fmt.Fprintln(os.Stderr, "\t(external)")
 			}
-			return ext(fr, args)
+			if r := ext(fr, args); r != value(notHandled) {
+				return r
+			}
 		}
 		if fn.Blocks == nil {
 			if i.inInit > 0 {
